@@ -101,7 +101,13 @@ func cat(xs ...[]int64) (o []int64) {
 	return
 }
 
-func tm(nsec int64) time.Time { return time.Unix(0, nsec).UTC() }
+// the controller's zone: time.Now() and the timestamps decoded from the API carry
+// time.Local, and a schedule without a zone is evaluated in the zone of the time it
+// is asked about.  It is fixed here (to an offset no pool zone has, not a whole
+// hour) so that no result depends on the zone of the machine.
+func init() { time.Local = time.FixedZone("harness-local", 5*3600+45*60) }
+
+func tm(nsec int64) time.Time { return time.Unix(0, nsec) }
 func mt(p *int64) metav1.Time {
 	if p == nil {
 		return metav1.Time{}
@@ -280,9 +286,117 @@ var schedPool = []string{
 	"0 0 29 2 *",          // 16
 	"*/20 9-17 * * 1-5",   // 17
 	"@every 1m",           // 18
+	"@weekly",             // 19
+	"@monthly",            // 20
+	"@yearly",             // 21
+	"@annually",           // 22
+	"@midnight",           // 23
+	"TZ=Asia/Tokyo 0 * * * *",          // 24 embedded zone (upstream validation rejects, this controller warns)
+	"CRON_TZ=Europe/London 30 9 * * *", // 25
+	"TZ=America/New_York @daily",       // 26
+	"CRON_TZ=Asia/Kolkata @hourly",     // 27
+	"TZ=Asia/Tokyo @every 2m",          // 28
 }
-var everyPeriod = map[int]int64{9: 90 * sec, 10: 5400 * sec, 15: 7 * sec, 18: 60 * sec}
-var tzPool = []string{"", "UTC", "Asia/Shanghai", "Asia/Kolkata", "America/New_York", "Europe/Berlin"}
+var everyPeriod = map[int]int64{9: 90 * sec, 10: 5400 * sec, 15: 7 * sec, 18: 60 * sec, 28: 120 * sec}
+
+// zone ids; 0 = spec.timeZone nil
+var tzPool = []string{"", "UTC", "Asia/Shanghai", "Asia/Kolkata", "America/New_York", "Europe/Berlin",
+	"Asia/Tokyo", "Europe/London", "<empty>", "Mars/Olympus"}
+
+const tzEmptyString, tzInvalid = 8, 9
+
+func tzName(id int) string {
+	if id == tzEmptyString {
+		return "" // a pointer to the empty string: time.LoadLocation("") is UTC
+	}
+	return tzPool[id]
+}
+func tzLoads(id int) bool { return id != tzInvalid }
+
+// what the model sees of a schedule string: its grammar and the zone it embeds
+const (
+	kFive = iota
+	kEvery
+	kDescriptor
+)
+
+func schedKind(sid int) int64 {
+	s := schedBody(sid)
+	switch {
+	case strings.HasPrefix(s, "@every"):
+		return kEvery
+	case strings.HasPrefix(s, "@"):
+		return kDescriptor
+	}
+	return kFive
+}
+
+// the schedule without an embedded TZ=/CRON_TZ= prefix, and the zone id of the prefix (-1: none)
+func splitEmbedded(sid int) (string, int) {
+	s := schedPool[sid]
+	if !strings.HasPrefix(s, "TZ=") && !strings.HasPrefix(s, "CRON_TZ=") {
+		return s, -1
+	}
+	sp := strings.Index(s, " ")
+	zone := s[strings.Index(s, "=")+1 : sp]
+	for i, z := range tzPool {
+		if i > 0 && z == zone {
+			return strings.TrimSpace(s[sp:]), i
+		}
+	}
+	panic("embedded zone not in the pool")
+}
+func schedBody(sid int) string { b, _ := splitEmbedded(sid); return b }
+
+// specSchedule evaluates the schedule as the CronJob SPEC says, without going through
+// formatSchedule or the parser's TZ= handling: the plain expression is parsed and its
+// Location is set to the zone the string embeds, else to spec.timeZone, else left local.
+func specSchedule(sid, tz int) (cron.Schedule, bool) {
+	body, emb := splitEmbedded(sid)
+	sch, err := cron.ParseStandard(body)
+	if err != nil {
+		panic("schedule pool entry does not parse: " + err.Error())
+	}
+	zone := -1
+	switch {
+	case emb >= 0:
+		zone = emb
+	case tz > 0:
+		if !tzLoads(tz) {
+			return nil, false
+		}
+		zone = tz
+	}
+	if ss, ok := sch.(*cron.SpecSchedule); ok && zone >= 0 {
+		loc, err := time.LoadLocation(tzName(zone))
+		if err != nil {
+			panic("pool zone does not load: " + err.Error())
+		}
+		ss.Location = loc
+	}
+	return sch, true
+}
+
+// wallClockOK: a point of a descriptor schedule, read on the wall clock of its zone
+func wallClockOK(sid int, loc *time.Location, p int64) bool {
+	t := time.Unix(0, p).In(loc)
+	if t.Nanosecond() != 0 || t.Second() != 0 || t.Minute() != 0 {
+		return false
+	}
+	switch schedBody(sid) {
+	case "@hourly":
+		return true
+	case "@daily", "@midnight":
+		return t.Hour() == 0
+	case "@weekly":
+		return t.Hour() == 0 && t.Weekday() == time.Sunday
+	case "@monthly":
+		return t.Hour() == 0 && t.Day() == 1
+	case "@yearly", "@annually":
+		return t.Hour() == 0 && t.Day() == 1 && t.Month() == time.January
+	}
+	panic("not a descriptor")
+}
 
 type recSched struct {
 	s  cron.Schedule
@@ -302,7 +416,7 @@ func baseCJ(sid, tz int) *batchv1.CronJob {
 	}
 	cj.Spec.Schedule = schedPool[sid]
 	if tz > 0 {
-		cj.Spec.TimeZone = ptr.To(tzPool[tz])
+		cj.Spec.TimeZone = ptr.To(tzName(tz))
 	}
 	return cj
 }
@@ -655,6 +769,8 @@ func errClass(err error) int64 {
 		return 1
 	case strings.Contains(err.Error(), "failed to fetch conflicting job"):
 		return 4
+	case strings.Contains(err.Error(), "unknown time zone"):
+		return 5
 	case errors.Is(err, errInjected):
 		return 3
 	case apierrors.IsNotFound(err):
@@ -709,7 +825,12 @@ func encSpec(cj *batchv1.CronJob) []int64 {
 			out = append(out, 1, int64(*l))
 		}
 	}
-	return out
+	tzok := true
+	if cj.Spec.TimeZone != nil {
+		_, err := time.LoadLocation(*cj.Spec.TimeZone)
+		tzok = err == nil
+	}
+	return append(out, vh.B(tzok))
 }
 
 var policies = []batchv1.ConcurrencyPolicy{batchv1.AllowConcurrent, batchv1.ForbidConcurrent, batchv1.ReplaceConcurrent}
@@ -725,6 +846,7 @@ func runHistory(in []int64) []int64 {
 	deadline := r.optZ()
 	succ := r.optZ()
 	fail := r.optZ()
+	tzok := r.b()
 	// status
 	last := r.optZ()
 	na := r.n()
@@ -746,6 +868,9 @@ func runHistory(in []int64) []int64 {
 	nops := r.n()
 	if r.bad {
 		return badInput
+	}
+	if tzok != tzLoads(st.tz) {
+		panic("zone id and zone-loads flag of the case disagree")
 	}
 	cj := baseCJ(st.sid, st.tz)
 	cj.CreationTimestamp = metav1.Time{Time: tm(created)}
@@ -889,6 +1014,82 @@ func refFor(a mref) (o corev1.ObjectReference) {
 	return
 }
 
+// ---------- cron: the zone of the schedule (selector 12) ----------
+
+func zoneCaseTokens(sid, tz int) []int64 {
+	out := []int64{int64(sid), int64(tz)}
+	switch {
+	case tz == 0:
+		out = append(out, 0)
+	case tzLoads(tz):
+		out = append(out, 1, int64(tz))
+	default:
+		out = append(out, 2)
+	}
+	out = append(out, schedKind(sid))
+	if _, emb := splitEmbedded(sid); emb >= 0 {
+		out = append(out, 1, int64(emb))
+	} else {
+		out = append(out, 0)
+	}
+	return out
+}
+
+func sameZone(a *time.Location, id int) bool {
+	b, err := time.LoadLocation(tzName(id))
+	return err == nil && a.String() == b.String()
+}
+
+func runZone(in []int64) []int64 {
+	if len(in) < 2 || in[0] < 0 || int(in[0]) >= len(schedPool) || in[1] < 0 || int(in[1]) >= len(tzPool) {
+		return badInput
+	}
+	sid, tz := int(in[0]), int(in[1])
+	if want := zoneCaseTokens(sid, tz); fmt.Sprint(want) != fmt.Sprint(in) {
+		return badInput
+	}
+	cj := baseCJ(sid, tz)
+	rec := &cjc.VerifRecorder{}
+	f := cjc.VerifFormatSchedule(cj, rec)
+	if f != cjc.VerifFormatSchedule(cj, nil) {
+		panic("formatSchedule depends on the recorder")
+	}
+	_, emb := splitEmbedded(sid)
+	if (len(rec.Reasons) > 0) != (emb >= 0) {
+		panic("UnsupportedSchedule warning and embedded zone disagree")
+	}
+	out := tag(1)
+	switch {
+	case f == schedPool[sid]:
+		out = append(out, 0)
+	case tz > 0 && f == "TZ="+tzName(tz)+" "+schedPool[sid]:
+		out = append(out, 1, int64(tz))
+	default:
+		panic("formatSchedule produced an unexpected string: " + f)
+	}
+	if parseCtl == nil {
+		parseCtl = cjc.NewVerifController(nil, nil, time.Now)
+	}
+	sch, err := parseCtl.ValidateTZandSchedule(cj)
+	out = append(out, tag(2)...)
+	out = append(out, vh.B(err == nil))
+	out = append(out, tag(3)...)
+	ss, isSpec := sch.(*cron.SpecSchedule)
+	switch {
+	case err != nil || !isSpec:
+		out = append(out, 0)
+	case ss.Location == time.Local:
+		out = append(out, 1, 0)
+	case emb >= 0 && sameZone(ss.Location, emb):
+		out = append(out, 1, 1, int64(emb))
+	case tz > 0 && sameZone(ss.Location, tz):
+		out = append(out, 1, 1, int64(tz))
+	default:
+		out = append(out, 1, 1, -1)
+	}
+	return out
+}
+
 // ---------- run / laws ----------
 
 func run(sel int, in []int64) []int64 {
@@ -943,6 +1144,8 @@ func run(sel int, in []int64) []int64 {
 		return []int64{int64(a), vh.B(gcc.VerifNeedsCleanup(j))}
 	case 10:
 		return runChoice(in)
+	case 12:
+		return runZone(in)
 	case 20:
 		return runHistory(in)
 	}
@@ -972,6 +1175,8 @@ func laws(sel int, in, got []int64, law func(lsel int, lin []int64, sig string))
 			}
 			law(111, cat([]int64{int64(st.sid), int64(st.tz)}, encList(tbl), qs), "")
 		}
+	case 12:
+		law(112, cat(in, stripTags(got)), "")
 	case 20:
 		for _, o := range lastHist.obs {
 			tbl := lawTable(lastHist.st, o.created, o.last, o.deadline, o.now)
@@ -1000,6 +1205,18 @@ func laws(sel int, in, got []int64, law func(lsel int, lin []int64, sig string))
 		}
 		law(120, encList(lastHist.created), "")
 	}
+}
+
+// the observables of a tagged output without the tags
+func stripTags(got []int64) []int64 {
+	out := []int64{}
+	for _, x := range got {
+		if x <= -100 && x > -100000 {
+			continue
+		}
+		out = append(out, x)
+	}
+	return out
 }
 
 func main() {
